@@ -17,7 +17,7 @@ for d in seeded/${1:-C*-[a-z]}; do
     u=$(python3 -c "import json; m=json.load(open('$d/meta.json')); print((m.get('check_result') or {}).get('unit',''))" 2>/dev/null)
     [ -n "$u" ] && only=(--only "$u")
   fi
-  out=$(tools/trymutant.sh $d/patch.diff $by "${only[@]}" 2>&1)
+  out=$(tools/trymutant.sh $d/patch.diff $by --stop-on-violation "${only[@]}" 2>&1)
   if echo "$out" | grep -q "PATCH DOES NOT APPLY"; then echo "$id NOAPPLY"; continue; fi
   rc=$(echo "$out" | grep -o 'rc=[0-9]*' | tail -1)
   sigs=$(echo "$out" | grep -o 'sig=[^ ]*' | sort -u | head -3 | tr '\n' ' ')
